@@ -48,6 +48,16 @@ CLAIMED = {
          'close the caller descriptor only under close_desc; all three open entry points initialise the descriptor fields to -1 before anything can fail; fileoffset is applied symmetrically '
          'in seek/tell/length; embedding whitelist and append-at-end positioning. Equality of results across routes is not decided.',
          'who-may-call / layering rule + guard-fact (interval) analysis on clang CFG + dominance rules'),
+ 'C04': ('DESIGN.md §4 C04',
+         'Close hooks rewrite the header with calc_length = SF_TRUE after any tailer; calc_length blocks recompute file/data length and frames from the real file size; header writers never '
+         'use the read/write positions; the five sample-granular inits derive frames from datalength / (bytewidth * channels); write-open resets the caller frame count; named encoding codes '
+         'written by WAV/WAVEX/W64/AU/AIFF writer arms map back to the same subformat in the reader arms. Frame-count arithmetic (N <= F < N + B, padding) and rate representability are not decided.',
+         'slot-sibling required-fact rules, switch/if arm-table extraction and cross-check, partial evaluation for mode feasibility'),
+ 'C11': ('DESIGN.md §4 C11',
+         'Every write_header saves the file position before moving it and restores it on every non-error path after the header bytes were written; WAV/AIFF/RF64 refuse to grow the header once '
+         'data exists; SFC_UPDATE_HEADER_NOW and the auto-update tail of all write wrappers call write_header (TRUE) after the position/frame-count updates; header writers never read the '
+         'positions; the SDS header writer restores the codec counters around its temporary block flush. That the image at a crash point parses to the right prefix is not decided.',
+         'save/restore PAIR (must-pass) rule over clang CFG with error-exit and guard-edge pruning; sibling required facts'),
 }
 REASONS = {}
 DEFAULT_REASON = 'check not built yet (work in progress); see DESIGN.md'
